@@ -1,5 +1,5 @@
 CONSTANTS Windows = {0, 1, 3} MaxStrobes = 4 MaxTicks = 9 Cap = 1 WithConsumer = TRUE WithTerminate = TRUE
 SPECIFICATION Spec
-INVARIANTS TypeOK InvC31_AtMostOne InvC31_NoLoss InvTimerPays InvDelivered InvC31_Coalesces
-PROPERTIES LiveTerminateReturns LiveStrobeReturns
+INVARIANTS TypeOK InvC31_AtMostOne InvC31_NoLoss InvTimerPays InvDelivered InvC31_Coalesces InvC31_DeliveredSurvivesTerminate
+PROPERTIES LiveTerminateReturns LiveStrobeReturns OnlyConsumeTakes
 CHECK_DEADLOCK FALSE
